@@ -1,6 +1,11 @@
 ID = "C07"
 PROPS_FILE = "props/C07.v"
-COQ_TARGETS = ["props/C07.vo", "judge/J07.vo", "model/Pack.vo"]
+import sys as _sys
+# The engine compiles props/C07.v itself for Print Assumptions (and fails the run if that
+# does not compile), so the quick tier builds only what that compile needs; the thorough
+# tier also builds props/C07.vo for coqchk.
+COQ_TARGETS = ["proofs/WireProofs.vo", "proofs/WireLayoutProofs.vo", "judge/J07.vo", "model/Pack.vo"] + (
+    ["props/C07.vo"] if "thorough" in _sys.argv else [])
 JUDGE = ("judge.J07", "J07.judge")
 JUDGE_SCOPE = "N_scope"
 REPO_BINS = []
